@@ -933,3 +933,40 @@ Print Assumptions C13_run_x_no_panic.
 Print Assumptions C13_failure_atomic_reachable_with_readonly.
 Print Assumptions C13_inv2_reachable_with_readonly.
 Print Assumptions C13_readonly_example.
+
+(** ** what a user of XPath observes of [Element::normalize]: string-values (builder-normalize3)
+
+    XPath 1.0, 5.2 / 5.1: the string-value of an element (of the root node) is the concatenation of the string-values of
+    its text node descendants in document order.  [text_value s n] (Proofs/DomNormalizeStringValue.v) is that value on
+    a store in the raw view: the concatenation, in document order, of the data of the Text and CDATASection descendants
+    of [n] reached through child elements (what [string_value_fuel] of Model/XDoc.v computes for an element row;
+    comments, processing instructions, references contribute nothing).  It is a function of the [blocks] of the child
+    lists, so by [C13_normalize_runs_unchanged] and the frame:
+
+    [normalize] changes the string-value of NO node of the receiver's document -- for every fuel and for the fuel of
+    Model/Store.v -- in every world with the tree invariant, both views; the other documents of the world are
+    untouched ([C13_normalize_local]).  (The value of a node without children is empty: the statement is about
+    elements, the document node, attributes.)
+    Not stated: the same through the table of the XPath evaluator ([xdoc_of_store] of Model/StoreView.v, either view). *)
+From XmlRs Require Import Proofs.DomNormalizeStringValue.
+
+Theorem C13_normalize_string_value_unchanged : forall merged w r s s', WInv w -> doc_at w (fst r) = Some s ->
+  doc_at (fst (normalize merged w r)) (fst r) = Some s' ->
+  forall n, (forall f, text_value_fuel f s' n = text_value_fuel f s n) /\ text_value s' n = text_value s n.
+Proof. exact normalize_string_value. Qed.
+
+(** the hypotheses are satisfiable by a non-trivial value: element 2 of [nz_before] holds element 3, whose Text children
+    "", "t", "]]", ">" become "t]]", ">"; the string-value "t]]>" of both elements is what it was, the child list of
+    element 3 is not *)
+Example C13_normalize_string_value_example :
+  WInv nz_before /\ doc_at nz_before 0 = Some (store0 nz_before)
+  /\ kind_of (store0 nz_before) 2 = Some KEl
+  /\ text_value (store0 nz_before) 3 = [116; 93; 93; 62]
+  /\ text_value (store0 (fst (normalize false nz_before (0, 2)))) 3 = [116; 93; 93; 62]
+  /\ text_value (store0 (fst (normalize false nz_before (0, 2)))) 2 = text_value (store0 nz_before) 2
+  /\ text_value (store0 nz_before) 2 = [116; 93; 93; 62]
+  /\ children_of (store0 (fst (normalize false nz_before (0, 2)))) 3 <> children_of (store0 nz_before) 3.
+Proof. exact nz_string_value_example. Qed.
+
+Print Assumptions C13_normalize_string_value_unchanged.
+Print Assumptions C13_normalize_string_value_example.
